@@ -126,8 +126,9 @@ pub fn exec(op: &str, a: &[&str]) -> Option<String> {
                 "to_tai_unit" => f(e.to_tai(s2u(a[2])), e.to_tai_duration().to_unit(s2u(a[2]))),
                 "to_utc_unit" => f(e.to_utc(s2u(a[2])), e.to_utc_duration().to_unit(s2u(a[2]))),
                 "to_tai_parts" => {
+                    // the pair is printed as observed (not re-normalised through from_parts)
                     let (c, ns) = e.to_tai_parts();
-                    Some(format!("ok d {} {}", d2s(Duration::from_parts(c, ns)), d2s(e.to_tai_duration())))
+                    Some(format!("ok d {}:{} {}", c, ns, d2s(e.to_tai_duration())))
                 }
                 "to_mjd_tai_d" => f(e.to_mjd_tai(Unit::Day), e.to_mjd_tai_days()),
                 "to_mjd_tai_s" => f(e.to_mjd_tai(Unit::Second), e.to_mjd_tai_seconds()),
